@@ -12,6 +12,15 @@ fn short(s: &str) -> String {
     }
 }
 
+/// A single slow measurement may be scheduling noise on a loaded machine: the input is run again
+/// on its own and only counts if it exceeds the budget a second time.
+fn still_slow(input: &str, profile: &str) -> bool {
+    match sweep(profile, &[input.to_string()], "c03-recheck") {
+        Ok(r) => r[0].class == "hang" || r[0].ms > 2000,
+        Err(_) => true,
+    }
+}
+
 pub fn judge(inputs: &[String], recs: &[Rec], profile: &str, acc: &mut Acc) {
     for (i, r) in recs.iter().enumerate() {
         acc.states += 1;
@@ -33,7 +42,7 @@ pub fn judge(inputs: &[String], recs: &[Rec], profile: &str, acc: &mut Acc) {
                 format!("[{profile}] input {:?}: the process died ({}) — abort, stack overflow or allocation failure", short(&inputs[i]), r.class),
                 wit(),
             ));
-        } else if r.class == "hang" || r.ms > 2000 {
+        } else if r.class == "hang" || (r.ms > 2000 && still_slow(&inputs[i], profile)) {
             acc.violate(Violation::new(
                 "C03:does-not-terminate-in-time",
                 format!("[{profile}] input {:?}: no answer within the per-input budget ({} ms)", short(&inputs[i]), r.ms),
